@@ -226,7 +226,7 @@ CHECKS["C16"] = {
     "rule": "cases = inputs of the size-class and address arithmetic: EXHAUSTIVE over all request sizes 0..2*MI_MEDIUM_OBJ_SIZE_MAX (bin size >= n, bins monotone, waste <= 25% above 64 bytes, "
             "mi_good_size >= n, idempotent and equal to mi_usable_size(mi_malloc(n)) for all n <= 64 KiB by 65 553 real allocations), all slice counts 0..512 (span bin monotone, in range, "
             "queue capacity >= count), fast division for every bin size and multiples of 8 up to 64 KiB x every block index of a page x remainders {0,1,d-1}, and for every bin size blocks on 3 "
-            "pages (+ large pages of 2..200 slices) x interior offsets {0,1,15,bs/2,4096,bs-1}: _mi_ptr_segment/_mi_ptr_page/_mi_page_ptr_unalign must recover the page and the block start; "
+            "pages (+ large and huge pages of 2..700 slices) x interior offsets {0,1,15,bs/2,4096,bs-1} and, for large pages, the slice boundaries {1,2,63,64,127,128,200,254,255} x {-8,0,+100} up to MI_BLOCK_ALIGNMENT_MAX into the block: _mi_ptr_segment/_mi_ptr_page/_mi_page_ptr_unalign must recover the page and the block start; "
             "GENERATED (seeded, around powers of two, SIZE_MAX, PTRDIFF_MAX): _mi_align_up/_mi_align_down/_mi_divide_up/_mi_clamp/_mi_wsize_from_size/mi_mul_overflow/mi_count_size_overflow/"
             "mi_clz/mi_ctz/mi_bsr/mi_popcount against unsigned __int128 / naive-loop references. Non-trivial = a size where the bin changes, a power-of-two slice count, a non-power-of-two "
             "divisor or block size at a non-zero interior offset, or a generated operand on a stated boundary (multiple/one-off of the alignment, product within 2^-20 of 2^64, popcount <=1 or "
@@ -278,3 +278,11 @@ CHECKS["C19"] = {
     "assumptions": ["glibc on Linux x86-64: only the entry points this libc declares are enumerated (cfree / reallocarray looked up with dlsym)",
                     "the throwing operator new with an impossible size is not generated: the C-compiled library documents abort() when no new-handler is installed"],
 }
+
+CHECKS["C09"]["runs"] += [dict(R("rel", 8000, 150000, 1.0), mode="C09"), dict(R("dbg", 3000, 50000, 0.6), mode="C09")]
+CHECKS["C09"]["budget_s"] = {"quick": 100, "thorough": 1200}
+CHECKS["C09"]["rule"] += (" Hist runs (real, unscheduled thread exit): single-thread histories in which helper threads allocate and really exit (pthread exit), half of them after "
+    "joining one of two extra sub-processes (mi_subproc_add_current_thread as their first action), with visit_abandoned=1, reclaim-on-free / OS segments / 100%% reclaim options; the main thread "
+    "then allocates, frees the foreign blocks, force-collects and takes a census. Oracle: the C01 model; a block left behind in another sub-process is never reported by a heap walk or the "
+    "abandoned walk of the main sub-process and is reported exactly once by mi_abandoned_visit_blocks of its own sub-process; non-trivial there = a helper thread exited with live blocks and "
+    "the main thread freed one of them or visited abandoned blocks.")
